@@ -21,7 +21,7 @@ PID = "C07"
 PARALLEL = 12
 CASE_TYPE = "C07.Corr.tcase"
 RUNNER = "C07.Corr.run"
-FINDING_CLASSES = {}
+FINDING_CLASSES = {2: "C07-F2"}
 RULE = ("block sig: complete product receiver/request class(11: every class of request.SERVICE2REQUEST at its entry point) x "
         "requirement(unset,False,True,cert-only)(4) x [Redirect x enveloped state(10) x detached state(16) | {POST,SOAP} x "
         "enveloped state(10) x detached{absent,valid,garbage}] with the remaining dimensions (issuer entity, "
@@ -42,7 +42,17 @@ RULE = ("block sig: complete product receiver/request class(11: every class of r
         "probe, failed reload, probe, reload back, probe; (2) two receiver objects with different metadata in one process, "
         "probes interleaved, each reloaded in turn; (3) embedded-certificate fallback across reloads; (4) two receivers with "
         "different requirement / endpoints, both orders; (5) seeded random walks over 1-3 receivers of any type: any request, "
-        "reloads, failed reloads, time zones.  non-trivial = distinct (receiver, class, binding, requirement, enveloped "
+        "reloads, failed reloads, time zones; (6) receivers BUILT with the requirement in their configuration (every spelling "
+        "that says yes + some that do not, through <Role>Config.load | config_factory | Config().load), next to one built "
+        "without: unsigned + every signer, reload, again.  block spelling (the requirement AS WRITTEN): 49 spellings of an "
+        "option value (absent, None, True/False, 1/0/2/-1, true/false/yes/no/on/off/1/0 in several capitalisations and with "
+        "blanks, '', ' ', texts that say neither) (A) as want_authn_requests_signed x signature path(5; thorough: all 33) x "
+        "{unsigned, signed as required, signature that does not verify}, (B) as want_authn_requests_only_with_valid_cert x "
+        "want_authn_requests_signed x enveloped {absent, valid, altered, untrusted key} on POST/SOAP and detached {absent, "
+        "valid} x enveloped {absent, altered} on Redirect; the loading route (load_special on the live Config | whole dict "
+        "through <Role>Config.load | config_factory | Config().load) rotates; 40 % of the random requests and the random "
+        "walks draw spellings and routes too; what Config.getattr answers for both options after loading is observed and "
+        "compared with Model.load_special_val.  non-trivial = distinct (spelling of both options, loading route, receiver, class, binding, requirement, enveloped "
         "class, detached class, signer, destination class, version, offset class, time zone, schema shape, verdict); a life "
         "counts when it has a change of state or a second receiver, distinct by its sequence of (operation, request key, verdict)")
 
@@ -60,13 +70,15 @@ def regenerate_tables(ctx):
           "calls": {"self.issue_instant_ok": lambda a: "issue_instant_ok"}})])
     v2 = py2coq2.regenerate(os.path.join(common.GEN, "C07Src2.v"), source2_items())
     v2l = regenerate_loads(os.path.join(common.GEN, "C07Src2l.v"))
+    v2c = regenerate_load_special(os.path.join(common.GEN, "C07Src2c.v"))
     out = dict(v1)
     for k in ("obligations", "discharged"):
-        out[k] = v1.get(k, 0) + v2[k] + v2l[k]
-    out["untranslatable"] = list(v1.get("untranslatable", [])) + list(v2["untranslatable"]) + list(v2l["untranslatable"])
-    out["translated"] = list(v1.get("translated", [])) + list(v2["translated"]) + list(v2l["translated"])
-    out["changed"] = bool(v1.get("changed")) or bool(v2["changed"]) or bool(v2l["changed"])
-    out["source2"], out["source2_loads"] = v2, v2l
+        out[k] = v1.get(k, 0) + v2[k] + v2l[k] + v2c[k]
+    out["untranslatable"] = (list(v1.get("untranslatable", [])) + list(v2["untranslatable"]) + list(v2l["untranslatable"])
+                             + list(v2c["untranslatable"]))
+    out["translated"] = list(v1.get("translated", [])) + list(v2["translated"]) + list(v2l["translated"]) + list(v2c["translated"])
+    out["changed"] = bool(v1.get("changed")) or bool(v2["changed"]) or bool(v2l["changed"]) or bool(v2c["changed"])
+    out["source2"], out["source2_loads"], out["source2_load_special"] = v2, v2l, v2c
     return out
 
 
@@ -199,6 +211,59 @@ def regenerate_loads(gen_path):
     return {"translated": [q], "untranslatable": failed, "changed": changed, "obligations": 1, "discharged": 1 - len(failed)}
 
 
+def _same(node, text):
+    return ast.dump(node) == ast.dump(ast.parse(text).body[0])
+
+
+def load_special_slice():
+    """The statements of Config.load_special through which the value of an option passes between the configuration dict
+    and Config.setattr, cut out as a pure function (fail-closed: every statement around the cut must have exactly the
+    expected shape, else Untranslatable):
+        for arg in SPEC[typ]: try: _val = cnf[arg] / except KeyError: pass / else: <CUT>; self.setattr(typ, arg, _val)
+        ->  def load_special_value(_val): <CUT>; return _val"""
+    import os
+    from harness import py2coq2
+
+    U = py2coq2.Untranslatable
+    with open(os.path.join(env.SRC, "saml2", "config.py")) as f:
+        fn = py2coq2.find_function(ast.parse(f.read()), "Config.load_special")
+    body = [b for b in fn.body if not (isinstance(b, ast.Expr) and isinstance(b.value, ast.Constant))]
+    loop = body[0] if body else None
+    if not (isinstance(loop, ast.For) and isinstance(loop.target, ast.Name) and loop.target.id == "arg"
+            and ast.dump(loop.iter) == ast.dump(ast.parse("SPEC[typ]").body[0].value)
+            and not loop.orelse and len(loop.body) == 1 and isinstance(loop.body[0], ast.Try)):
+        raise U("Config.load_special: the loop over SPEC[typ] has another shape")
+    t = loop.body[0]
+    if not (len(t.body) == 1 and _same(t.body[0], "_val = cnf[arg]") and len(t.handlers) == 1
+            and ast.dump(t.handlers[0]) == ast.dump(ast.parse("try:\n pass\nexcept KeyError:\n pass").body[0].handlers[0])
+            and not t.finalbody and t.orelse and _same(t.orelse[-1], "self.setattr(typ, arg, _val)")):
+        raise U("Config.load_special: the try statement around cnf[arg] has another shape")
+    for rest in body[1:]:
+        if not (_same(rest, "self.context = typ") or _same(rest, "self.context = self.def_context")):
+            raise U("Config.load_special: unexpected statement after the loop")
+    f1 = ast.parse("def load_special_value(_val):\n pass").body[0]
+    f1.body = list(t.orelse[:-1]) + [ast.parse("return _val").body[0]]
+    f1.lineno, f1.end_lineno = t.orelse[0].lineno, t.orelse[-1].end_lineno
+    return ast.fix_missing_locations(f1)
+
+
+def regenerate_load_special(gen_path):
+    """the cut of load_special_slice -> coq/gen/C07Src2c.v (C07/Source2c.v proves it equal to Model.load_special_val)"""
+    from harness import common, py2coq2
+
+    q, spec = "Config.load_special", {"name": "src2_load_special_value", "params": ["_val"]}
+    failed = []
+    try:
+        body = py2coq2.translate_def(load_special_slice(), spec,
+                                     "saml2/config.py:Config.load_special (the else block in front of self.setattr, cut out by "
+                                     "harness/c07.py:load_special_slice)")
+    except (py2coq2.Untranslatable, OSError, SyntaxError, AttributeError, IndexError) as e:
+        failed.append("%s: %s" % (q, e))
+        body = py2coq2.poison(q, spec, str(e))
+    changed = common.write_if_changed(gen_path, py2coq2.HEADER + body)
+    return {"translated": [q], "untranslatable": failed, "changed": changed, "obligations": 1, "discharged": 1 - len(failed)}
+
+
 TRUSTED = ["source-to-Gallina translator harness/py2coq.py + coq/theories/Base/Py.v (Request._verify is re-translated from the source "
            "text on every run; c07_source_request_verify proves it equal to the model)",
            "translator v2 harness/py2coq2.py + coq/theories/Base/Py2.v (semantics and trusted base: notes/translator_v2.md); "
@@ -210,13 +275,22 @@ TRUSTED = ["source-to-Gallina translator harness/py2coq.py + coq/theories/Base/P
            "Request construction, valid_instance) are universally quantified functions under the hypotheses of each theorem",
            "xmlsec1 stand-in (harness/standin/xmlsec1.py) for enveloped signatures; RSA PKCS#1 v1.5 via `cryptography` for "
            "detached ones", "renderer harness/render.py, metadata templates harness/world.py",
+           "translator v2 on the cut of Config.load_special between `_val = cnf[arg]` and `self.setattr(typ, arg, _val)` "
+           "(harness/c07.py:load_special_slice, fail-closed on any other shape of the surrounding loop / try) -> "
+           "coq/gen/C07Src2c.v; C07/Source2c.v proves it equal to Model.load_special_val for every value (c07_source2_load_special, "
+           "c07_source2_stored); that Config.load / config_factory hand every service section to load_special and that "
+           "setattr / getattr store and fetch by (context, name) is tied by the correspondence only (loading routes)",
            "abstraction in harness/c07.py: fixture key pair / certificate <-> number, concrete text <-> (version, destination, "
            "issue instant, issuer, schema flags), exception class <-> verdict",
            "lives: each life is observed in a child of a pristine copy of the observing process (os.fork before the first "
            "request); the receivers' own private keys are loaded once per process "
            "(saml2.cryptography.asymmetric.load_pem_private_key memoised on the PEM octets); the virtual clock's now() "
            "without zone is local wall time (local extension of env.VClock)"]
-ASSUMPTIONS = ["ideal signatures (hypotheses everify_spec / dverify_spec of C07/Proofs.v); real RSA runs in the correspondence",
+ASSUMPTIONS = ["an option value SAYS yes when it is True, a number other than 0, or one of true / yes / on / 1 in any capitalisation "
+               "with blanks around it ignored; it says no when it is absent, None, False, 0 or one of false / no / off / 0 / '' "
+               "(the vocabulary of client_base.py since 6bdc97cd); a text that says neither demands nothing (C07/Spec.v: "
+               "says_yes, says_no, spec_src); only ASCII spellings are generated",
+               "ideal signatures (hypotheses everify_spec / dverify_spec of C07/Proofs.v); real RSA runs in the correspondence",
                "IssueInstant is an xs:dateTime in UTC ('Z', optional fraction); other zone designators are rejected by "
                "valid_instance and appear only as the inst_ok=false shape",
                "xsd_ok / inst_ok (outcome of the XML-schema validation of the re-serialised element and of valid_instance) are "
@@ -276,6 +350,7 @@ PASSES_DETACHED = {"AuthnRequest", "LogoutRequest"}
 RK = [("idp", "AuthnRequest"), ("idp", "LogoutRequest"), ("idp", "AttributeQuery"), ("idp", "AuthnQuery"),
       ("idp", "ManageNameIDRequest"), ("sp", "LogoutRequest"), ("sp", "ManageNameIDRequest"), ("aa", "AttributeQuery"),
       ("idp", "AuthzDecisionQuery"), ("idp", "AssertionIDRequest"), ("idp", "NameIDMappingRequest")]
+RCV_KIND = {"idp": "AuthnRequest", "aa": "AttributeQuery", "sp": "LogoutRequest"}
 RECEIVER_HOST = {"idp": "https://idp.example.org", "sp": "https://sp.example.org", "aa": "https://idp.example.org"}
 
 # ---------------------------------------------------------------------------- fixtures of this property
@@ -354,14 +429,70 @@ _rcv = {}
 CONTEXTS = ("idp", "sp", "aa", "aq", "pdp")
 
 
-def _build(rcv, vcert, only_md, gen="G0"):
+WS, OVC = "want_authn_requests_signed", "want_authn_requests_only_with_valid_cert"
+PYNONE = {"py": "None"}        # a configuration value: the key is there and its value is None (None in a case = no key)
+HOWS = ["special", "load", "factory", "base"]
+
+
+def written(v):
+    """(the key is in the section?, the Python value) of a configuration value of a case"""
+    if v is None:
+        return False, None
+    if isinstance(v, dict):
+        return True, None
+    return True, v
+
+
+def reads(v):
+    """how a configuration value READS (the vocabulary of C07/Spec.v): 'yes' / 'no' / 'other'"""
+    present, val = written(v)
+    if not present or val is None or val is False or (isinstance(val, int) and not isinstance(val, bool) and val == 0):
+        return "no"
+    if val is True or (isinstance(val, int) and not isinstance(val, bool)):
+        return "yes"
+    w = val.strip(" \t\n\r\x0b\x0c").lower()
+    return "yes" if w in ("true", "yes", "on", "1") else ("no" if w in ("false", "no", "off", "0", "") else "other")
+
+
+def sections_for(case, options=True):
+    """the service sections of a case: endpoints of the service under test per context, and the two options of the idp
+    section as the case writes them"""
+    sections = {}
+    for ctx, specs in epl_for(case["rcv"], case["kind"], case["epcfg"]):
+        sections.setdefault(ctx, {"endpoints": {}})["endpoints"][SERVICE[case["kind"]]] = [
+            tuple(s) if isinstance(s, (tuple, list)) else s for s in specs]
+    if options:
+        for name, v in ((WS, case["must"]), (OVC, case["ovc"])):
+            present, val = written(v)
+            if present:
+                sections.setdefault("idp", {})[name] = val
+    return sections
+
+
+def _build(rcv, vcert, only_md, gen="G0", case=None, how="load"):
     """Security context, metadata and key material are built once per (receiver type, validate_certificate,
-    only_use_keys_in_metadata); see configure() for the per-case settings.  A life builds receivers of its own."""
+    only_use_keys_in_metadata); see configure() for the per-case settings.  A life builds receivers of its own.
+    With `case`: the service sections of the case (endpoints, the two options, accepted_time_diff) are part of the
+    configuration dict the receiver is BUILT from, loaded the way `how` says: the role's class .load(dict),
+    config_factory(role, dict), or the base class Config().load(dict)."""
     common = {"metadata_xml": metadata_docs(gen), "only_use_keys_in_metadata": only_md}
     if vcert:
         common["validate_certificate"] = True
+    if case is not None and case["slack"] is not None:
+        common["accepted_time_diff"] = case["slack"]
+    extra = sections_for(case) if case is not None else {}
+    from saml2 import config as cfgmod
+
+    def load(cls, typ, conf):
+        if how == "factory":
+            return cfgmod.config_factory(typ, copy.deepcopy(conf))
+        c = cfgmod.Config() if how == "base" else cls()
+        c.load(copy.deepcopy(conf))
+        if how == "base":
+            c.context = c.def_context = typ
+        return c
+
     if rcv in ("idp", "aa"):
-        from saml2.config import IdPConfig
         from saml2.server import Server
 
         conf = world.idp_config(**common)
@@ -369,39 +500,45 @@ def _build(rcv, vcert, only_md, gen="G0"):
         conf["service"] = {"idp": {"endpoints": {}, "policy": base["policy"], "name": "verif idp"}}
         if rcv == "aa":
             conf["service"]["aa"] = {"endpoints": {}, "policy": base["policy"]}
-        c = IdPConfig()
-        c.load(copy.deepcopy(conf))
-        return Server(config=c, stype=rcv)
+        for ctx, sec in extra.items():
+            conf["service"].setdefault(ctx, {}).update(sec)
+        return Server(config=load(cfgmod.IdPConfig, "idp", conf), stype=rcv)
     from saml2.client import Saml2Client
-    from saml2.config import SPConfig
 
     conf = world.sp_config(**common)
     conf["service"] = {"sp": {"endpoints": {}, "idp": [world.IDP_ID]}}
-    c = SPConfig()
-    c.load(copy.deepcopy(conf))
-    return Saml2Client(config=c)
+    for ctx, sec in extra.items():
+        conf["service"].setdefault(ctx, {}).update(sec)
+    return Saml2Client(config=load(cfgmod.SPConfig, "sp", conf))
 
 
 def configure(r, case):
     """Per-case configuration: every service section goes through Config.load_special (the loader
     Config.load uses for service sections, incl. its "true"/"false" conversion); accepted_time_diff is
-    set the way Config.load sets common arguments."""
+    set the way Config.load sets common arguments.  how = "built": the two options are the ones the receiver was
+    built with (they came through Config.load once, when the process started) and are left alone."""
     cfg = r.config
     for ctx in CONTEXTS:
         cfg.setattr(ctx, "endpoints", None)
-    cfg.setattr("idp", "want_authn_requests_signed", None)
-    cfg.setattr("idp", "want_authn_requests_only_with_valid_cert", None)
-    sections = {}
-    for ctx, specs in epl_for(case["rcv"], case["kind"], case["epcfg"]):
-        sections.setdefault(ctx, {"endpoints": {}})["endpoints"][SERVICE[case["kind"]]] = [
-            tuple(s) if isinstance(s, (tuple, list)) else s for s in specs]
-    if case["must"] is not None:
-        sections.setdefault("idp", {})["want_authn_requests_signed"] = case["must"]
-    if case["ovc"] is not None:
-        sections.setdefault("idp", {})["want_authn_requests_only_with_valid_cert"] = case["ovc"]
+    built = case.get("how") == "built"
+    if not built:
+        cfg.setattr("idp", WS, None)
+        cfg.setattr("idp", OVC, None)
+    sections = sections_for(case, options=not built)
     for ctx in sorted(sections):
         cfg.load_special(copy.deepcopy(sections[ctx]), ctx)
     cfg.accepted_time_diff = case["slack"]
+
+
+def got_value(v):
+    """what Config.getattr answered for an option, as a configuration value of the abstraction (None = None)"""
+    if v is None or isinstance(v, (bool, int, str)):
+        return v
+    return {"other": type(v).__name__}
+
+
+def got_options(r):
+    return [got_value(r.config.getattr(WS, "idp")), got_value(r.config.getattr(OVC, "idp"))]
 
 
 def setup():
@@ -438,6 +575,10 @@ def local_clock():
 
 def receiver(case):
     setup()
+    how = case.get("how", "special")
+    if how != "special":
+        # the whole configuration (service sections with the options of the case in them) is loaded: a receiver of its own
+        return _build(case["rcv"], bool(case["vcert"]), bool(case["only_md"]), "G0", case, how)
     key = (case["rcv"], bool(case["vcert"]), bool(case["only_md"]))
     r = _rcv.get(key)
     if r is None:
@@ -711,7 +852,7 @@ def observe_request(rcv, case, wire=None):
         exc = type(e).__name__
         # valid_instance raises NotValid or (required attribute missing) MustValueError
         v = "NotValid" if isinstance(e, NotValid) or exc == "MustValueError" else exc
-    return {"verdict": v, "code": VERDICT.get(v, 99), "exc": exc}
+    return {"verdict": v, "code": VERDICT.get(v, 99), "exc": exc, "got": got_options(rcv)}
 
 
 # A life is the life of a PROCESS.  Whatever state the code under test keeps between requests -- in objects, classes
@@ -805,12 +946,26 @@ def observe_life(case):
 def _observe_life(case, wires):
     """receivers of its own (never shared with another case), built from their first metadata generation, and the
     operations in order"""
-    rcvs = [_build(r["rcv"], False, bool(r["only_md"]), r["gen"]) for r in case["rcvs"]]
+    rcvs = []
+    for r in case["rcvs"]:
+        try:
+            rcvs.append(_build(r["rcv"], False, bool(r["only_md"]), r["gen"],
+                               dict(base(), rcv=r["rcv"], kind=RCV_KIND[r["rcv"]], epcfg="none", must=r["must"], ovc=r["ovc"])
+                               if "must" in r else None, r.get("how", "load")))
+        except Exception as e:  # noqa
+            rcvs.append(e)
     steps = []
     for o, w in zip(case["ops"], wires):
         r = rcvs[o["r"]]
+        if isinstance(r, Exception):
+            steps.append(refused(r) if o["op"] == "req" else {"reload": type(r).__name__})
+            continue
         if o["op"] == "req":
-            configure(r, o["c"])
+            try:
+                configure(r, o["c"])
+            except Exception as e:  # noqa
+                steps.append(refused(e))
+                continue
             steps.append(observe_request(r, o["c"], w))
             continue
         if o["op"] == "reload":
@@ -829,10 +984,19 @@ def _observe_life(case, wires):
     return {"steps": steps}
 
 
+def refused(e):
+    """the configuration of the case could not be loaded: no receiver, nothing is processed"""
+    return {"verdict": "ConfigRefused", "code": 99, "exc": type(e).__name__, "got": [{"other": "unloaded"}] * 2}
+
+
 def observe(case):
     if "ops" in case:
         return observe_life(case)
-    return observe_request(receiver(case), case)
+    try:
+        r = receiver(case)
+    except Exception as e:  # noqa
+        return refused(e)
+    return observe_request(r, case)
 
 
 # ---------------------------------------------------------------------------- abstraction -> Coq
@@ -969,8 +1133,9 @@ def coq_request(case, obs, mdterm):
     wire = {"deflate": "WDeflate", "base64": "WBase64", "soap": "WSoap", "xml": "WXml", "notb64": "WNotB64"}[
         case["wire"] or proper_wire(case["binding"])]
     issuer = ISSUERS[case["issuer"]]
-    return "C07.Corr.mk %s %s %s %s %s %s %s %s %s %s %s %s %s %s %s %s %s %s %s %s %s %s %s %s" % (
-        cqs(case["rcv"]), epl_name(case["rcv"], case["kind"], case["epcfg"]), cq_opt(_b(case["must"])), cq_opt(_b(case["ovc"])),
+    return "C07.Corr.mk %s %s %s %s %s %s %s %s %s %s %s %s %s %s %s %s %s %s %s %s %s %s %s" % (
+        cqs(case["rcv"]), epl_name(case["rcv"], case["kind"], case["epcfg"]),
+        "%s %s %s %s" % (cq_cval(case["must"]), cq_cval(case["ovc"]), cq_got(obs["got"][0]), cq_got(obs["got"][1])),
         cq_opt(case["slack"]), cq(bool(case["only_md"])), mdterm, valid, "c07_now", case["kind"],
         opt(cqb(case["binding"]) if case["binding"] is not None else None), wire, case["actual"] or case["kind"],
         cqs(case["version"]), cqs_opt(dest_value(case)), "c07_now" if case["offset"] == 0 else cq(NOW + case["offset"]),
@@ -978,13 +1143,31 @@ def coq_request(case, obs, mdterm):
         cq(xsd), cq(inst), envs, rs, sa, sg, nat(obs["code"]))
 
 
-def _b(v):
-    """configuration value -> what load_special stores"""
-    if v == "true":
-        return True
-    if v == "false":
-        return False
-    return v
+def _cval(present, val):
+    if not present:
+        return "CAbsent"
+    if val is None:
+        return "CNone"
+    if isinstance(val, bool):
+        return "(CBool %s)" % cq(val)
+    if isinstance(val, int):
+        return "(CInt (%d)%%Z)" % val
+    if isinstance(val, str):
+        return "(CStr %s)" % cq(val)
+    return '(CStr "<%s>")' % type(val).__name__
+
+
+def cq_cval(v):
+    """configuration value of a case (as written) -> C07.Model.cval"""
+    return _cval(*written(v))
+
+
+def cq_got(v):
+    """what Config.getattr answered -> C07.Model.cval (None: CAbsent, see Corr.getattr_of); a value of another type
+    (or no configuration at all) is a text no loader of the model produces"""
+    if isinstance(v, dict):
+        return '(CStr "<%s>")' % v["other"]
+    return _cval(v is not None, v)
 
 
 # ---------------------------------------------------------------------------- generation
@@ -1063,14 +1246,14 @@ def base(rng=None, **over):
     c = {"rcv": "idp", "kind": "AuthnRequest", "actual": None, "binding": POST, "wire": None, "must": None, "ovc": None,
          "vcert": False, "only_md": True, "slack": None, "epcfg": "default", "issuer": "E1", "env": None, "det": None,
          "envname": "absent", "detname": "absent", "dest": "primary", "version": "2.0", "offset": 0, "frac": None,
-         "schema": "ok", "tz": None, "tag": "base"}
+         "schema": "ok", "tz": None, "how": "special", "tag": "base"}
     c.update(over)
     return c
 
 
 def signed_as_required(c):
     """make the signature dimensions valid for the requirement of case c (in place)"""
-    req = c["must"] in (True, "true") or c["ovc"] in (True, "true")
+    req = reads(c["must"]) == "yes" or reads(c["ovc"]) == "yes"
     c["envname"], c["detname"] = "absent", "absent"
     if req and c["binding"] == REDIRECT:
         c["detname"] = "valid"
@@ -1128,6 +1311,64 @@ def sig_case(rng, rk, req, binding, envname, detname, tag):
     c["env"] = env_state(envname, c["issuer"])
     c["det"] = det_state(detname, c["issuer"])
     return c
+
+
+# how an option can be written in a configuration (Python module, JSON or YAML file read into a dict): the Boolean, a
+# number, or a text in any capitalisation / with blanks around it; None = the key is absent, PYNONE = the value None
+SPELL_YES = [True, 1, 2, -1, "true", "True", "TRUE", "tRue", " true", "true ", "True\n", "yes", "Yes", "YES", "on", "On",
+             "1", " 1 "]
+SPELL_NO = [None, PYNONE, False, 0, "false", "False", "FALSE", "fAlse", " false ", "false\t", "no", "No", "off", "OFF", "0",
+            "", " "]
+SPELL_OTHER = ["t", "f", "y", "n", "maybe", "None", "null", "required", "truee", "tru", "2", "-1", "enabled", "nein"]
+SPELLINGS = SPELL_YES + SPELL_NO + SPELL_OTHER
+SPELL_PATHS = [("idp", "AuthnRequest", POST), ("idp", "AuthnRequest", REDIRECT), ("idp", "LogoutRequest", SOAP),
+               ("aa", "AttributeQuery", SOAP), ("sp", "LogoutRequest", POST)]
+
+
+def gen_spellings(rng, thorough):
+    """The requirement as WRITTEN x the way the configuration is LOADED x signature state.
+    (A) every spelling as want_authn_requests_signed (certificate-only option absent) x signature path x
+        {unsigned, signed as a requirement wants it, signature that does not verify};
+    (B) every spelling as want_authn_requests_only_with_valid_cert x want_authn_requests_signed {absent, False, True}
+        x enveloped {absent, valid, content altered, untrusted key with KeyInfo} over POST / SOAP and x detached
+        {absent, valid} x enveloped {absent, content altered} over Redirect.
+    The loading route (load_special on a live Config | <Role>Config.load of the whole dict | config_factory |
+    Config().load) rotates, so that every spelling meets every route in each block."""
+    out = []
+    n = 0
+    paths = SPELL_PATHS if not thorough else [(r, k, b) for r, k in RK for b in (POST, REDIRECT, SOAP)]
+    for v in SPELLINGS:
+        for rcv, kind, b in paths:
+            for st in ("unsigned", "good", "bad"):
+                n += 1
+                c = base(rcv=rcv, kind=kind, binding=b, must=v, how=HOWS[n % len(HOWS)], tag="spelling")
+                if st != "unsigned":
+                    if b == REDIRECT:
+                        c["detname"] = "valid" if st == "good" else "altmsg"
+                    else:
+                        c["envname"] = "valid" if st == "good" else "tamper"
+                c["env"], c["det"] = env_state(c["envname"], "E1"), det_state(c["detname"], "E1")
+                out.append(c)
+    for v in SPELLINGS:
+        for must in ((None, False, True) if thorough else (None, rng.choice([False, True, "False", "True"]))):
+            full = thorough or must is None
+            for rcv, kind, b in [("idp", "AuthnRequest", POST), ("idp", "LogoutRequest", SOAP)][:2 if full else 1]:
+                for envname in (("absent", "valid", "tamper", "untrusted_ki") if full and b == POST else ("absent", "tamper")):
+                    n += 1
+                    c = base(rcv=rcv, kind=kind, binding=b, must=must, ovc=v, how=HOWS[n % len(HOWS)], tag="spelling-ovc",
+                             envname=envname)
+                    c["env"] = env_state(envname, "E1")
+                    out.append(c)
+            if not full:
+                continue
+            for detname in ("absent", "valid"):
+                for envname in ("absent", "tamper"):
+                    n += 1
+                    c = base(binding=REDIRECT, must=must, ovc=v, how=HOWS[n % len(HOWS)], tag="spelling-ovc",
+                             envname=envname, detname=detname)
+                    c["env"], c["det"] = env_state(envname, "E1"), det_state(detname, "E1")
+                    out.append(c)
+    return out
 
 
 def generate(ctx):
@@ -1247,13 +1488,8 @@ def generate(ctx):
                     if must and b == REDIRECT:
                         c["detname"], c["det"] = "valid", det_state("valid", "E1")
                     cases.append(c)
-    # ---- configuration spellings
-    for must in ("true", "false"):
-        for ovc in (None, "true", "false", False):
-            for envname in ("absent", "valid"):
-                c = base(must=must, ovc=ovc, tag="spelling", envname=envname)
-                c["env"] = env_state(envname, "E1")
-                cases.append(c)
+    # ---- how the requirement is WRITTEN and how the configuration is loaded (see gen_spellings)
+    cases.extend(gen_spellings(rng, ctx.thorough))
     # ---- seeded random over everything
     for _ in range(12000 if ctx.thorough else 300):
         rk = rng.choice(RK)
@@ -1262,6 +1498,9 @@ def generate(ctx):
         fill_mostly_valid(c, rng, p=0.5)
         c["vcert"] = rng.random() < 0.2
         c["tz"] = rng.choice(TZS) if rng.random() < 0.3 else None
+        if rng.random() < 0.4:      # any spelling of either option, any way of loading
+            c["must"], c["ovc"] = rng.choice(SPELLINGS), rng.choice(SPELLINGS + [None] * len(SPELLINGS))
+            c["how"] = rng.choice(HOWS)
         c["env"] = env_state(c["envname"], c["issuer"])
         c["det"] = det_state(c["detname"], c["issuer"])
         cases.append(c)
@@ -1284,12 +1523,14 @@ PATHS = [("idp", "AuthnRequest", REDIRECT, "det"), ("idp", "LogoutRequest", REDI
 PROBE_SIGNERS = ["sp", "other", "attacker"]
 
 
-def probe(path, signer, only_md=True, issuer="E1", must=True, ki=False, tz=None):
-    """one request of issuer E1 on a signature path, signed by `signer`, everything else valid"""
-    rcv, kind, b, how = path
-    c = base(rcv=rcv, kind=kind, binding=b, must=must, issuer=issuer, only_md=only_md, tz=tz, tag="probe",
+def probe(path, signer, only_md=True, issuer="E1", must=True, ki=False, tz=None, ovc=None, how="special"):
+    """one request of issuer E1 on a signature path, signed by `signer` (None: unsigned), everything else valid"""
+    rcv, kind, b, sigkind = path
+    c = base(rcv=rcv, kind=kind, binding=b, must=must, ovc=ovc, how=how, issuer=issuer, only_md=only_md, tz=tz, tag="probe",
              envname="probe", detname="probe")
-    if how == "det":
+    if signer is None:
+        pass
+    elif sigkind == "det":
         c["det"] = dict(det_state("valid", "E1"), signer=signer)
     else:
         c["env"] = {"signer": signer, "state": "ok", "shape": "ok", "ki": ki}
@@ -1341,20 +1582,38 @@ def gen_lives(rng, thorough):
             out.append(life([{"rcv": path[0], "gen": a, "only_md": False}], ops, "life-fallback"))
     # (4) the requirement / endpoints of two receivers differ (one requires signatures, the other does not)
     #     -- in both orders: the lenient receiver first / the strict receiver first, unsigned requests first / last
+    strict, lenient = [True, "True", "true", 1, "yes", "TRUE"], [None, False, "false", 0, PYNONE, ""]
     for path in PATHS:
         for order in (((0, True), (1, None)), ((1, None), (0, True))):
             for signers in ([None] + PROBE_SIGNERS, PROBE_SIGNERS + [None]):
+                n += 1
+                spelt = tuple((r, strict[n % len(strict)] if must else lenient[n % len(lenient)]) for r, must in order)
                 ops = []
                 for k in range(2):
                     for s in signers:
-                        for r, must in order:
-                            c = probe(path, s or "sp", must=must)
-                            if s is None:
-                                c["env"], c["det"] = None, None
+                        for r, must in spelt:
+                            c = probe(path, s, must=must)
                             c["epcfg"] = ("default", "two")[r]
                             c["dest"] = ("primary", "second")[(r + k) % 2]
                             ops.append({"op": "req", "r": r, "c": c})
                 out.append(life([{"rcv": path[0], "gen": "G0", "only_md": True}] * 2, ops, "life-config"))
+    # (6) the requirement is part of the configuration the receiver was BUILT from (whole dict through <Role>Config.load |
+    #     config_factory | Config().load), spelled in every way, and stays with the long-lived object: unsigned and signed
+    #     probes, reload, probes again; a second receiver built without the requirement lives next to it
+    spelled = SPELL_YES + ["False", "no", "", "maybe", False, PYNONE]
+    k = 0
+    for path in PATHS:
+        for _ in range(len(spelled) if thorough else 5):
+            k += 1
+            v = spelled[k % len(spelled)]
+            as_ovc = k % 4 == 3 and path[3] == "env"
+            r0 = {"rcv": path[0], "gen": "G0", "only_md": True, "must": None if as_ovc else v, "ovc": v if as_ovc else None,
+                  "how": HOWS[1 + k % 3]}
+            r1 = {"rcv": path[0], "gen": "G0", "only_md": True, "must": None, "ovc": None, "how": HOWS[1 + (k + 1) % 3]}
+            P = lambda: [{"op": "req", "r": r, "c": probe(path, sg, must=rc["must"], ovc=rc["ovc"], how="built")}  # noqa: E731
+                         for sg in [None] + PROBE_SIGNERS for r, rc in ((0, r0), (1, r1))]
+            ops = P() + [{"op": "reload", "r": 0, "gen": "G1", "via": ("entity", "store")[k % 2]}] + P()
+            out.append(life([r0, r1], ops, "life-built"))
     # (5) seeded random walks: 1-3 receivers of any type, any request (mostly valid), reloads, failed reloads, time zones
     for _ in range(1500 if thorough else 70):
         rcvs = [{"rcv": rng.choice(["idp", "idp", "sp", "aa"]), "gen": rng.choice(names), "only_md": rng.random() < 0.8}
@@ -1371,7 +1630,8 @@ def gen_lives(rng, thorough):
                 path = rng.choice([p for p in PATHS if p[0] == rcvs[r]["rcv"]])
                 ops.append({"op": "req", "r": r, "c": probe(path, rng.choice(PROBE_SIGNERS), rcvs[r]["only_md"],
                                                              issuer=rng.choice(["E1", "E1", "E2"]), ki=rng.random() < 0.5,
-                                                             must=rng.choice([True, True, None]),
+                                                             must=rng.choice([True, True, None] + SPELLINGS),
+                                                             ovc=rng.choice([None] * 150 + SPELLINGS),
                                                              tz=rng.choice(TZS) if rng.random() < 0.3 else None)})
             else:
                 rk = rng.choice([k for k in RK if k[0] == rcvs[r]["rcv"]])
@@ -1449,8 +1709,11 @@ def nontrivial(case, obs):
             else:
                 key.append((o["r"], o["op"], o.get("gen"), st["reload"]))
         return key if len(case["rcvs"]) > 1 or any(o["op"] != "req" for o in case["ops"]) else None
-    req = "cert-only" if case["ovc"] in (True, "true") else ("required" if case["must"] in (True, "true") else "optional")
-    key = (case["rcv"], case["kind"], str(case["binding"]), req, case["envname"], case["detname"], case["dest"],
+    req = "cert-only" if reads(case["ovc"]) == "yes" else ("required" if reads(case["must"]) == "yes" else "optional")
+    if reads(case["ovc"]) == "other" or (req == "optional" and reads(case["must"]) == "other"):
+        req = "unclear"
+    key = (repr(case["must"]), repr(case["ovc"]), case.get("how", "special"),
+           case["rcv"], case["kind"], str(case["binding"]), req, case["envname"], case["detname"], case["dest"],
            case["epcfg"], case["version"], offset_class(case), case["schema"], case["wire"], case["actual"], obs["verdict"],
            case.get("tz"), (case["env"] or {}).get("signer"), (case["det"] or {}).get("signer"))
     trivial = (req == "optional" and case["envname"] == "absent" and case["detname"] == "absent" and case["dest"] == "primary"
@@ -1462,7 +1725,7 @@ def nontrivial(case, obs):
 def histogram(cases, observed):
     h = {"by_tag": {}, "verdict": {}, "kind": {}, "binding": {}, "requirement": {}, "enveloped": {}, "detached": {},
          "destination": {}, "version": {}, "offset": {}, "epcfg": {}, "issuer": {}, "unexpected_exceptions": {},
-         "time_zone": {}, "lives": {"lives": 0, "requests": 0, "reloads": 0, "reloads_refused": 0, "failed_reloads": 0,
+         "time_zone": {}, "requirement_reads": {}, "loaded_by": {}, "lives": {"lives": 0, "requests": 0, "reloads": 0, "reloads_refused": 0, "failed_reloads": 0,
                                     "receivers_per_life": {}, "ops_per_life": {}, "accepted_after_a_reload": 0,
                                     "rejected_after_a_reload": 0}}
 
@@ -1499,7 +1762,10 @@ def histogram(cases, observed):
         inc(h["verdict"], o["verdict"])
         inc(h["kind"], c["rcv"] + ":" + c["kind"])
         inc(h["binding"], SHORT.get(c["binding"], c["binding"]) if c["binding"] else "None")
-        inc(h["requirement"], "%s/%s" % (c["must"], c["ovc"]))
+        inc(h["requirement"], "%r/%r" % (written(c["must"])[1] if c["must"] is not None else "absent",
+                                         written(c["ovc"])[1] if c["ovc"] is not None else "absent"))
+        inc(h["requirement_reads"], "%s/%s" % (reads(c["must"]), reads(c["ovc"])))
+        inc(h["loaded_by"], c.get("how", "special"))
         inc(h["enveloped"], c["envname"])
         inc(h["detached"], c["detname"])
         inc(h["destination"], c["dest"])
